@@ -51,7 +51,7 @@ CHECKS = {
         "the following statements. 6000 programs (quick) with lists of <= 3 of 34 redirections on simple commands and on seven kinds of compound commands nested two levels are compared on file contents, stdout / stderr tag sequences and probe "
         "reports, and a final probe inventories the shell's own table. HereDoc.tla: Body(form, lines) for every sequence of <= 2 (thorough 3) of 25 lines x 4 delimiter forms in 7 syntactic placements.",
    note="Trusted: TLC, bash 5.2.15 (audit), the fdprobe helper (it treats /dev/null on 0-2 as 'closed' because the Rust runtime opens it there). Diagnostics are ignored; when a diagnostic lands in a compared file through a redirected stderr "
-        "the file contents of that program are not compared; sizes of holes are not compared. Two recorded findings (unterminated documents, lone backslash line).",
+        "the file contents of that program are not compared; sizes of holes are not compared. One recorded finding (documents not terminated before end of input).",
    ref="DESIGN.md section 6 C10"),
  "C11": dict(level=MC, thorough=True, tech="TLA+ Pipeline.tla (bounded pipes, end holders, spawn/wait order; deadlock + liveness for all stage-kind/payload/early-exit configurations) + trace validation (Trace_Pipeline.tla) + replay with real sizes against bash",
    text="TLC checks InOrderOnce, AllDelivered, NoLeakedEnds, SpawnBeforeWait, deadlock freedom and termination for every configuration of 3 (thorough 4) stages x payloads around the pipe capacity x early-exit readers, "
